@@ -49,6 +49,7 @@ PROPS = {
             {"name": "registry", "args": ["__PID__"]},
             {"name": "exec", "args": [exact(q("scope C04")), "600" if tier == "quick" else "6000"]},
             {"name": "scalargrid", "args": [exact(q("scope C04"))]},
+            {"name": "pairs", "args": [exact(q("scope C04")), "12" if tier == "quick" else "120"]},
         ],
         "signature": sig_exec,
         "rule": "every instruction of the C04 reference table (52 names), driven by NAME through InstructionSet, on the full square of the boundary pools (16x16 integer pairs, 22x22 float pairs: MIN / -1, MIN % -1, x / 0, MAX + 1, inf - inf ... always met) and on generated states: operands from the boundary pools (i32 MIN/MAX/0/±1, ±0.0, subnormal, ±MAX, ±inf, NaN) and random, rich and sparse stacks; non-trivial = the state changed; distinct = distinct request lines",
@@ -141,6 +142,7 @@ PROPS = {
             {"name": "registry", "args": ["__PID__"]},
             {"name": "vecgrid", "args": []},
             {"name": "exec", "args": [exact(q("scope C09")), "300" if tier == "quick" else "3000"]},
+            {"name": "pairs", "args": [exact(q("scope C09")), "24" if tier == "quick" else "240"]},
         ],
         "signature": sig_exec,
         "rule": "the nine element-wise instructions on an exhaustive grid: length pairs (0..6)^2 (thorough (0..9)^2), equal and unequal, offsets -8..8 plus i32::MIN, MIN+1, MAX-1, MAX, elements from the boundary pools (extreme ints, non-finite floats, zero divisors); all 53 non-random vector instructions by NAME on generated states (empty and non-empty vectors, clamped indices); element-wise results compared with the README rule (overlapSpec), SORT with ordered-permutation; non-trivial = the state changed",
